@@ -55,6 +55,16 @@ def check(run):
                     # KNOWN FINDING (open): the code answers "unknown card type" for a list none of whose entries names an application
                     exp, fc = "Ok:Member:" + cc.canon_uid(uid), "application-list-without-application-id-with-uid"
                 scenario(pre + [S.status_info({0x27: 0, 0x06: {"uuid": uid, "subs": subs}})], exp, fc)
+    # the application list as real terminals send it (the crate's own trace status_information_read_card.blob): under tag 0x62
+    # ("applications on card"), with or without top-level entries.  A payment application listed THERE makes it a bank card too.
+    for n_inter in (0, 2):
+        pre = [S.intermediate(rng.randrange(256)) for _ in range(n_inter)]
+        giro = (b"\x00\x05", bytes.fromhex("a0000003591010028001"))
+        maestro = (b"\x00\x2e", bytes.fromhex("a0000000043060"))
+        for on_card, subs in (([giro, maestro], []), ([maestro], []), ([(b"\x00\x05", None), maestro], []), ([giro], [(b"\x00\x05", None)]),
+                              ([(None, None), giro], [])):
+            for uid in (None, "00000000000008b3c880", "04a1b2c3d4e5f6"):
+                scenario(pre + [S.status_info({0x27: 0, 0x06: {"uuid": uid, "subs": subs, "on_card": on_card}})], "Ok:Bank")
     # all abort codes: time-out = no card, any other abort an error
     for c in range(256):
         if c == 0x6c:
